@@ -1,3 +1,6 @@
+// verif-agent: the agent under test. It runs the real start-up path of /repo (LoadConfigFile ->
+// NewPFCPIface -> Run) built with the tag "verif", after connecting the guarded hooks to the
+// harness' control socket (path in VERIF_CTL; without it the hooks stay disabled).
 package main
 
 import (
@@ -13,15 +16,23 @@ import (
 func main() {
 	configPath := flag.String("config", "upf.jsonc", "path to upf config")
 	flag.Parse()
+
 	conf, err := pfcpiface.LoadConfigFile(*configPath)
 	if err != nil {
 		fmt.Fprintln(os.Stderr, "VERIF-AGENT config error:", err)
 		os.Exit(3)
 	}
+
 	lvl, _ := zapcore.ParseLevel(conf.LogLevel.String())
 	logger.SetLogLevel(lvl)
-	installHooks()
+
+	h := installHooks()
 	pfcpi := pfcpiface.NewPFCPIface(conf)
+
+	if h != nil {
+		h.setIface(pfcpi)
+	}
+
 	pfcpi.Run()
 	fmt.Fprintln(os.Stderr, "VERIF-AGENT run returned")
 }
